@@ -16,6 +16,7 @@ type WriteSet struct {
 	locals map[*ssa.Alloc]bool
 	alloc  bool
 	why    string // reason for all
+	except []string
 }
 
 func newWriteSet() *WriteSet {
